@@ -58,9 +58,11 @@ func runC38(c *Ctx) {
 		}
 		// small order test is on 8·Y of the decoded key
 		okSO := false
-		for _, ci := range allCalls(fn) {
-			if strings.HasSuffix(calleeName(ci.Common()), "(*Point).MultByCofactor") {
-				okSO = len(ci.Common().Args) == 2
+		for _, g := range closureFuncs(fn, 1) {
+			for _, ci := range allCalls(g) {
+				if strings.HasSuffix(calleeName(ci.Common()), "(*Point).MultByCofactor") {
+					okSO = len(ci.Common().Args) == 2
+				}
 			}
 		}
 		c.Check(okSO, "verify-and-hash", key+":cofactor", fn.Pos(), "small order is tested by multiplying by the cofactor", "the small-order test does not multiply the key by the cofactor")
@@ -184,6 +186,22 @@ func runC38(c *Ctx) {
 						who = "c"
 					}
 				}
+				// or built by a helper that returns the scalar it set with SetUniformBytes
+				if call, isCall := sc.(*ssa.Call); isCall {
+					if h := samePkgHelper(fn, &call.Call); h != nil {
+						for _, hb := range h.Blocks {
+							hr, isR := hb.Instrs[len(hb.Instrs)-1].(*ssa.Return)
+							if !isR || len(hr.Results) != 1 {
+								continue
+							}
+							for _, cj := range allCalls(h) {
+								if strings.HasSuffix(calleeName(cj.Common()), "(*Scalar).SetUniformBytes") && cj.Common().Args[0] == hr.Results[0] {
+									who = "c"
+								}
+							}
+						}
+					}
+				}
 			}
 			switch {
 			case pt == "p0":
@@ -206,6 +224,23 @@ func runC38(c *Ctx) {
 	for _, ci := range allCalls(fn) {
 		if b, ok := ci.Common().Value.(*ssa.Builtin); ok && b.Name() == "copy" && rootValue(ci.Common().Args[1], 0) == cArr {
 			okC = true
+		}
+	}
+	// or copied inside a helper that receives the c array
+	for _, ci := range allCalls(fn) {
+		h := samePkgHelper(fn, ci.Common())
+		if h == nil {
+			continue
+		}
+		for i, a := range ci.Common().Args {
+			if rootValue(a, 0) != cArr || i >= len(h.Params) {
+				continue
+			}
+			for _, cj := range allCalls(h) {
+				if b, ok := cj.Common().Value.(*ssa.Builtin); ok && b.Name() == "copy" && rootValue(cj.Common().Args[1], 0) == ssa.Value(h.Params[i]) {
+					okC = true
+				}
+			}
 		}
 	}
 	c.Check(okC, "group-equations", key+":challenge-from-proof", fn.Pos(), "the challenge scalar is built from the proof's c bytes", "the challenge scalar is not derived from the proof's c bytes")
